@@ -11,7 +11,12 @@ type arithSpace struct {
 	Xs, Ys []Operand // binary operations run on Xs x Ys
 	Us     []Operand // unary operations
 	Ctxs   []CtxCase
-	Desc   string
+	// HiUs x HiCtxs: long and 64/128-bit-edge operands at precisions 19..39, where the kept coefficient itself
+	// crosses the uint64 and inline (128-bit) boundaries; HiPairs are binary cases for the same contexts.
+	HiUs    []Operand
+	HiCtxs  []CtxCase
+	HiPairs [][2]Operand
+	Desc    string
 }
 
 // coefficient selection with every rounding selector: ties (…5, …50), just
@@ -89,6 +94,24 @@ func buildArithSpace(tier string, seed int64) arithSpace {
 	s.Xs = append(s.Xs, longPartners()...)
 	s.Ys = append(s.Ys, longPartners()...)
 	s.Desc += "; LONG family: 129..300-digit coefficients with tails below/at/above one half in U (and a share in X), 70-digit and 1E+150 partners in X and Y"
+	s.HiUs = append(append([]Operand{}, lo...), Edge([]int32{-40, -1, 0, 3})...)
+	for _, p := range []uint32{19, 20, 21, 34, 38, 39} {
+		for _, m := range Modes8 {
+			s.HiCtxs = append(s.HiCtxs, MkCtx(p, -6143, 6144, m, 0))
+		}
+	}
+	part := longPartners()
+	for i, o := range lo {
+		if i%9 == 0 {
+			s.HiPairs = append(s.HiPairs, [2]Operand{o, part[0]}, [2]Operand{o, part[3]}, [2]Operand{part[4], o})
+		}
+	}
+	for i, a := range s.HiUs {
+		if a.V.Coef.BitLen() >= 60 && a.V.Coef.BitLen() <= 140 && i%5 == 0 {
+			s.HiPairs = append(s.HiPairs, [2]Operand{a, Fin(3, 0, false)}, [2]Operand{a, Fin(7, -1, true)}, [2]Operand{Fin(1, 0, false), a})
+		}
+	}
+	s.Desc += "; high-precision block: LONG + EDGE operands (and pairs) at p in {19,20,21,34,38,39} x 8 modes (kept coefficients across the 64- and 128-bit boundaries)"
 	return s
 }
 
